@@ -161,6 +161,45 @@ int main(int argc, char** argv) {
             o.key("coupled").b(coupled);
             double others = 0; for (size_t i = 1; i < cell_tester::nodes(*c1).size(); i++) others = std::max(others, cell_tester::nodes(*c1)[i].force().norm() / norm);
             o.key("others").d(others);
+        } else if (mode == "coupling") {
+#if CONTACT_MODEL_INDEX == 1
+            // spec/Contact/CouplingRule: two tetrahedra (nodes 1..4 and 5..8 of the specification), a sequence of presentations
+            // <<node, face>> pushed one by one through the real resolve_contact; partner and stored distance of all eight nodes after it
+            auto PA = C["posA"].dvec(), PB = C["posB"].dvec();
+            for (auto& x : PA) x *= u; for (auto& x : PB) x *= u;
+            // outward wound: base first, then the flank named by the specification, then the two other flanks
+            cell_ptr cA = make_cell(PA, {0, 1, 2, 0, 3, 1, 1, 3, 2, 2, 3, 0}, 0, 0);
+            cell_ptr cB = make_cell(PB, {0, 2, 1, 0, 1, 3, 1, 2, 3, 2, 0, 3}, 1, 0);
+            std::vector<cell_ptr> L = {cA, cB};
+            zero(L);
+            auto& NA = cell_tester::nodes(*cA); auto& NB = cell_tester::nodes(*cB);
+            bool ok = NA.size() == 4 && NB.size() == 4 && cell_tester::faces(*cA).size() == 4 && cell_tester::faces(*cB).size() == 4;
+            // the gates on normals are opened (every node normal of a cell points at the other cell); the curvature gate is open in make_cell
+            for (auto& n : NA) { cell_tester::node_normal(n) = vec3(0, 0, 1); cell_tester::reset_coupling(n); }
+            for (auto& n : NB) { cell_tester::node_normal(n) = vec3(0, 0, -1); cell_tester::reset_coupling(n); }
+            auto tri_is = [&](cell_ptr c, size_t fi, unsigned a, unsigned b, unsigned d) { auto t = cell_tester::tri(cell_tester::faces(*c)[fi]); return t[0] == a && t[1] == b && t[2] == d; };
+            ok = ok && tri_is(cA, 0, 0, 1, 2) && tri_is(cA, 1, 0, 3, 1) && tri_is(cB, 0, 0, 2, 1);
+            for (size_t q = 0; q < 4 && ok; q++) ok = NA[q].pos() == vec3(PA[3 * q], PA[3 * q + 1], PA[3 * q + 2]) && NB[q].pos() == vec3(PB[3 * q], PB[3 * q + 1], PB[3 * q + 2]);
+            o.key("setup_ok").b(ok);
+            const double cut = std::sqrt(C["cut2"].d()) * u;
+            open_model mdl(params(u, cut, 0.25 * cut));
+            const vj::value& H = C["hist"];
+            for (size_t s = 0; s < H.size() && ok; s++) {
+                auto h = H[s].ivec();
+                const long n = h[0], fid = h[1];                      // specification numbering: nodes 1..8, faces 1 (base A) 2 (base B) 3 (flank A)
+                cell_ptr c1 = n <= 4 ? cA : cB, c2 = n <= 4 ? cB : cA;
+                node& nd = cell_tester::nodes(*c1)[(size_t)((n - 1) % 4)];
+                face* f = fid == 2 ? &cell_tester::faces(*cB)[0] : &cell_tester::faces(*cA)[fid == 1 ? 0 : 1];
+                mdl.narrow(c1, c2, nd, f);
+            }
+            o.key("partner").arr();
+            for (int ci = 0; ci < 2; ci++) for (auto& n : cell_tester::nodes(*L[ci])) { if (n.is_coupled()) { auto pr = n.get_coupled_node(); o.i(1 + 4 * (long)pr.first + (long)pr.second); } else o.i(0); }
+            o.end_arr().key("dist").arr();
+            for (int ci = 0; ci < 2; ci++) for (auto& n : cell_tester::nodes(*L[ci])) { const double d2 = cell_tester::closest_d2(n); if (d2 == std::numeric_limits<double>::max()) o.d(-1); else o.d(d2 / (u * u)); }
+            o.end_arr();
+            double fmax = 0; for (auto& c : L) for (auto& n : cell_tester::nodes(*c)) fmax = std::max(fmax, n.force().norm());
+            o.key("fmax").d(fmax);
+#endif
         } else {
             // tissue: cells on the lattice
             std::vector<cell_ptr> L, Lref, Lre;
